@@ -63,16 +63,18 @@ LogOps   == {"&&", "||"}
 (*       Because context widths are maxima of sizes (5.4.1) this raises    *)
 (*       every context width to Migen's width of the sub-expression.       *)
 (*   neg : a literal written -N'dV is read as the signed literal -N'sdV.   *)
-(*   sl  : a bit/part select of a signed variable and a bare signed        *)
-(*       variable standing for its own 1-bit select are read as            *)
-(*       $signed({1'd0, select}).                                          *)
-(*   cm  : the 1-bit result of a comparison of two signed operands is read *)
-(*       as $signed({1'd0, comparison}).                                   *)
+(*   bel : every operator node whose two context partners (operands of     *)
+(*       + - * & | ^, of a comparison, branches of ?:) differ in type       *)
+(*       promotes its unsigned partner as $signed({1'd0, partner}) - what   *)
+(*       the back end intends to print (expression.py to_signed) and fails  *)
+(*       to print where it takes an unsigned Verilog operand for signed     *)
+(*       (selects of signed variables, comparisons and shifts with a signed *)
+(*       operand).                                                         *)
 (*   cl  : the items of a case statement are read as the integers they     *)
 (*       denote in FHDL (N'dV = V, -N'dV = -V) and compared with the        *)
 (*       selector in the selector's own type.                              *)
 (***************************************************************************)
-Plain == [all |-> FALSE, only |-> {}, neg |-> FALSE, sl |-> FALSE, cl |-> FALSE, cm |-> FALSE]
+Plain == [all |-> FALSE, only |-> {}, neg |-> FALSE, bel |-> FALSE, cl |-> FALSE]
 Ideal == [Plain EXCEPT !.all = TRUE]
 
 Raised(e, M) == "mw" \in DOMAIN e /\ (M.all \/ e.pi \in M.only)
@@ -82,8 +84,6 @@ IsMem(D, n) == "d" \in DOMAIN D[n]
 
 RECURSIVE BaseName(_)
 BaseName(e) == IF e.k = "id" THEN e.n ELSE BaseName(e.a)
-SignedSel(e, D, M) == M.sl /\ e.k \in {"sel", "rng"} /\ e.a.k = "id" /\ ~IsMem(D, e.a.n) /\ D[e.a.n].s = 1
-
 ---------------------------------------------------------------------------
 (* Part 1 - expressions *)
 
@@ -93,24 +93,32 @@ ConstVal(e) == CASE e.k = "int" -> e.v
                  [] e.k = "par" -> ConstVal(e.a)
 
 RECURSIVE Size(_, _, _), SumSize(_, _, _, _), Sgn(_, _, _)
-SignedCmp(e, D, M) == M.cm /\ e.k = "bin" /\ e.op \in RelOps /\ Sgn(e.a, D, M) /\ Sgn(e.b, D, M)
+(* hypothesis bel: the promotion wrappers the back end printed are taken off (Op) and re-derived from the    *)
+(* Verilog types of the two context partners: x is promoted next to its partner y                            *)
+IsWrap(x) == x.k = "sgn" /\ x.f = "$signed" /\ x.a.k = "cat" /\ Len(x.a.l) = 2 /\ x.a.l[1].k = "num" /\ x.a.l[1].w = 1 /\ x.a.l[1].v = 0
+Op(x, M)  == IF M.bel /\ IsWrap(x) THEN x.a.l[2] ELSE x
+RECURSIVE NegPat(_)
+NegPat(x) == IF x.k = "par" THEN NegPat(x.a) ELSE x.k = "un" /\ x.op = "-" /\ x.a.k = "num"     \* -N'dV: the back end's own (signed) constant
+Prom(x, y, D, M)  == M.bel /\ ~Sgn(x, D, M) /\ Sgn(y, D, M) /\ ~NegPat(x)
+SizeP(x, y, D, M) == Size(x, D, M) + (IF Prom(x, y, D, M) THEN 1 ELSE 0)
+PromNeg(e, D, M)  == M.bel /\ e.k = "un" /\ e.op = "-" /\ e.a.k # "num" /\ ~Sgn(e.a, D, M)     \* -(unsigned): (-$signed({1'd0, x}))
+JoinS(x, y, D, M) == IF M.bel THEN Sgn(x, D, M) \/ Sgn(y, D, M) ELSE Sgn(x, D, M) /\ Sgn(y, D, M)
 (* 5.4.1, Table 5-22: self-determined bit length *)
 Size(e, D, M) ==
   CASE e.k = "id"   -> D[e.n].w
     [] e.k = "num"  -> e.w
     [] e.k = "int"  -> 32
     [] e.k = "par"  -> LET w == Size(e.a, D, M) IN IF Raised(e, M) /\ e.mw > w THEN e.mw ELSE w
-    [] e.k = "un"   -> IF e.op \in {"-", "~", "+"} THEN Size(e.a, D, M) ELSE 1
-    [] e.k = "bin"  -> IF e.op \in ArithOps THEN Max(Size(e.a, D, M), Size(e.b, D, M))
+    [] e.k = "un"   -> IF e.op \in {"-", "~", "+"} THEN Size(e.a, D, M) + (IF PromNeg(e, D, M) THEN 1 ELSE 0) ELSE 1
+    [] e.k = "bin"  -> IF e.op \in ArithOps THEN Max(SizeP(Op(e.a, M), Op(e.b, M), D, M), SizeP(Op(e.b, M), Op(e.a, M), D, M))
                        ELSE IF e.op \in ShiftOps THEN Size(e.a, D, M)
-                       ELSE IF SignedCmp(e, D, M) THEN 2 ELSE 1
-    [] e.k = "cond" -> Max(Size(e.a, D, M), Size(e.b, D, M))
+                       ELSE 1
+    [] e.k = "cond" -> Max(SizeP(Op(e.a, M), Op(e.b, M), D, M), SizeP(Op(e.b, M), Op(e.a, M), D, M))
     [] e.k = "sgn"  -> Size(e.a, D, M)
     [] e.k = "cat"  -> SumSize(e.l, 1, D, M)
     [] e.k = "rep"  -> ConstVal(e.n) * SumSize(e.l, 1, D, M)
-    [] e.k = "sel"  -> IF e.a.k = "id" /\ IsMem(D, e.a.n) THEN D[e.a.n].w
-                       ELSE IF SignedSel(e, D, M) THEN 2 ELSE 1
-    [] e.k = "rng"  -> (e.h - e.l + 1) + (IF SignedSel(e, D, M) THEN 1 ELSE 0)
+    [] e.k = "sel"  -> IF e.a.k = "id" /\ IsMem(D, e.a.n) THEN D[e.a.n].w ELSE 1
+    [] e.k = "rng"  -> e.h - e.l + 1
 SumSize(l, i, D, M) == IF i > Len(l) THEN 0 ELSE Size(l[i], D, M) + SumSize(l, i + 1, D, M)
 
 (* 5.5.1: type of an expression; depends on the operands only, never on the left-hand side *)
@@ -119,24 +127,25 @@ Sgn(e, D, M) ==
     [] e.k = "num"  -> e.s = 1                                  \* N'dV unsigned, N'sdV signed (3.5.1)
     [] e.k = "int"  -> TRUE
     [] e.k = "par"  -> Sgn(e.a, D, M)
-    [] e.k = "un"   -> IF NegLit(e, M) THEN TRUE
+    [] e.k = "un"   -> IF NegLit(e, M) \/ PromNeg(e, D, M) THEN TRUE
                        ELSE IF e.op \in {"-", "~", "+"} THEN Sgn(e.a, D, M) ELSE FALSE
-    [] e.k = "bin"  -> IF e.op \in ArithOps THEN Sgn(e.a, D, M) /\ Sgn(e.b, D, M)     \* any unsigned operand -> unsigned
+    [] e.k = "bin"  -> IF e.op \in ArithOps THEN JoinS(Op(e.a, M), Op(e.b, M), D, M)   \* any unsigned operand -> unsigned
                        ELSE IF e.op \in ShiftOps THEN Sgn(e.a, D, M)                  \* right operand is self-determined
-                       ELSE SignedCmp(e, D, M)                                        \* comparison results are unsigned
-    [] e.k = "cond" -> Sgn(e.a, D, M) /\ Sgn(e.b, D, M)
+                       ELSE FALSE                                                     \* comparison results are unsigned
+    [] e.k = "cond" -> JoinS(Op(e.a, M), Op(e.b, M), D, M)
     [] e.k = "sgn"  -> e.f = "$signed"
-    [] e.k \in {"sel", "rng"} -> SignedSel(e, D, M)            \* selects are unsigned regardless of the operand
-    [] OTHER        -> FALSE                                    \* concatenation, replication
+    [] OTHER        -> FALSE                                    \* selects, concatenation, replication: unsigned
 
 (* 5.5.2 last step: an operand reaching width W is sign extended only if the PROPAGATED type is signed *)
 Ext(v, w, W, S) == IF S THEN SExt(v, w, W) ELSE v
 
-RECURSIVE Ev(_, _, _, _, _, _), CatVal(_, _, _, _, _)
+RECURSIVE Ev(_, _, _, _, _, _), CatVal(_, _, _, _, _), EvP(_, _, _, _, _, _, _)
 (* value of e as a W-bit vector in a context of width W >= Size(e) and type S (5.4.1, 5.5.2):       *)
 (* context-determined operands inherit (W, S); self-determined ones are evaluated at their own size *)
 (* and type and then extended.                                                                      *)
 Self(e, D, V, M) == Ev(e, Size(e, D, M), Sgn(e, D, M), D, V, M)
+(* operand x next to its context partner y: a promoted operand is evaluated on its own and is never negative *)
+EvP(x, y, W, S, D, V, M) == IF Prom(x, y, D, M) THEN Self(x, D, V, M) ELSE Ev(x, W, S, D, V, M)
 Ev(e, W, S, D, V, M) ==
   CASE e.k = "id"   -> Ext(V[e.n], D[e.n].w, W, S)
     [] e.k = "num"  -> Ext(e.v % P2(e.w), e.w, W, S)
@@ -144,6 +153,7 @@ Ev(e, W, S, D, V, M) ==
     [] e.k = "par"  -> Ev(e.a, W, S, D, V, M)
     [] e.k = "un"   ->
          IF NegLit(e, M) THEN Ext(Neg(e.a.v % P2(e.a.w), e.a.w), e.a.w, W, S)
+         ELSE IF PromNeg(e, D, M) THEN Neg(Self(e.a, D, V, M), W)
          ELSE IF e.op = "-" THEN Neg(Ev(e.a, W, S, D, V, M), W)
          ELSE IF e.op = "~" THEN (P2(W) - 1) - Ev(e.a, W, S, D, V, M)
          ELSE IF e.op = "+" THEN Ev(e.a, W, S, D, V, M)
@@ -151,8 +161,8 @@ Ev(e, W, S, D, V, M) ==
          ELSE Assert(FALSE, <<"unary operator outside the subset", e.op>>)
     [] e.k = "bin"  ->
          IF e.op \in ArithOps THEN
-           LET x == Ev(e.a, W, S, D, V, M)
-               y == Ev(e.b, W, S, D, V, M)
+           LET x == EvP(Op(e.a, M), Op(e.b, M), W, S, D, V, M)
+               y == EvP(Op(e.b, M), Op(e.a, M), W, S, D, V, M)
            IN CASE e.op = "+" -> AddW(x, y, W)
                 [] e.op = "-" -> SubW(x, y, W)
                 [] e.op = "*" -> MulW(x, y, W)
@@ -167,10 +177,12 @@ Ev(e, W, S, D, V, M) ==
                 [] e.op = ">>>"           -> IF S THEN AshrW(x, n, W) ELSE ShrW(x, n, W)
          ELSE IF e.op \in RelOps THEN
            (* 5.4.1: the operands are sized to the larger of the two; 5.5.1: compared as signed only if both are *)
-           LET w2 == Max(Size(e.a, D, M), Size(e.b, D, M))
-               s2 == Sgn(e.a, D, M) /\ Sgn(e.b, D, M)
-               xb == Ev(e.a, w2, s2, D, V, M)
-               yb == Ev(e.b, w2, s2, D, V, M)
+           LET a  == Op(e.a, M)
+               b  == Op(e.b, M)
+               w2 == Max(SizeP(a, b, D, M), SizeP(b, a, D, M))
+               s2 == JoinS(a, b, D, M)
+               xb == EvP(a, b, w2, s2, D, V, M)
+               yb == EvP(b, a, w2, s2, D, V, M)
                x  == IF s2 THEN ToInt(xb, w2) ELSE xb
                y  == IF s2 THEN ToInt(yb, w2) ELSE yb
                r  == CASE e.op = "<"  -> x < y
@@ -183,7 +195,8 @@ Ev(e, W, S, D, V, M) ==
          ELSE IF e.op = "&&" THEN (IF Self(e.a, D, V, M) # 0 /\ Self(e.b, D, V, M) # 0 THEN 1 ELSE 0)
          ELSE IF e.op = "||" THEN (IF Self(e.a, D, V, M) # 0 \/ Self(e.b, D, V, M) # 0 THEN 1 ELSE 0)
          ELSE Assert(FALSE, <<"binary operator outside the subset", e.op>>)
-    [] e.k = "cond" -> IF Self(e.c, D, V, M) # 0 THEN Ev(e.a, W, S, D, V, M) ELSE Ev(e.b, W, S, D, V, M)
+    [] e.k = "cond" -> IF Self(e.c, D, V, M) # 0 THEN EvP(Op(e.a, M), Op(e.b, M), W, S, D, V, M)
+                       ELSE EvP(Op(e.b, M), Op(e.a, M), W, S, D, V, M)
     [] e.k = "sgn"  -> Ext(Self(e.a, D, V, M), Size(e.a, D, M), W, S)
     [] e.k = "cat"  -> CatVal(e.l, 1, D, V, M)[1]
     [] e.k = "rep"  -> LET c == CatVal(e.l, 1, D, V, M)
